@@ -2,6 +2,7 @@ from collections import Counter
 import random
 import torch
 import os
+import inspect
 import logging
 import sys
 from pathlib import Path
@@ -9,6 +10,22 @@ from pathlib import Path
 unix_like = os.name != "nt"
 if unix_like:
     from resource import RUSAGE_SELF, getrusage
+
+
+def observable_init_kwargs(aggregation_method: str) -> dict:
+    """
+    Extra keyword arguments for `pulser.backend.Observable.__init__`.
+
+    From pulser-core 1.9 on, the base class requires a
+    `default_aggregation_method`; earlier versions do not accept it.
+    """
+    from pulser.backend.observable import Observable
+
+    if "default_aggregation_method" not in inspect.signature(Observable).parameters:
+        return {}
+    from pulser.backend.observable import AggregationMethod
+
+    return {"default_aggregation_method": AggregationMethod[aggregation_method]}
 
 
 def init_logging(log_level: int, log_file: Path | None) -> logging.Logger:
